@@ -14,9 +14,28 @@ def keys_for(tier):
     return "oct:64,rsa:2048,ec:P-256,ec:P-384,ec:P-521,ec:secp256k1,okp:Ed25519,okp:Ed448"
 
 
-def judge(path):
+BASES = ["harness-signed", "libjwt-signed(openssl)", "libjwt-signed(gnutls)"]
+PROVS = ["openssl", "gnutls"]
+
+
+def viol_key(prov, case, cls, variant):
+    kind = case[0].split(":")[0]
+    crv = case[0].split(":")[1] if kind in ("ec", "okp") else ""
+    key = "accept-invalid:%s:%s%s:%s:%s" % (prov, kind, ("/" + crv) if crv else "", case[1], CLASSES[cls])
+    if cls == 4:      # bit flips: the byte position matters for recognising a specific known leniency
+        key += ":byte%d" % (variant // 8)
+    elif cls == 3:    # character substitution at position `variant`: last signature byte it touches
+        key += ":byte%d" % ((variant * 6 + 5) // 8)
+    return key
+
+
+def judge(path, prop="C01"):
     out = dict(n=0, acc=0, distinct=set(), viol=[], samples=[], c={}, cases={})
     c = out["c"]
+
+    def cnt(k, n=1):
+        c[k] = c.get(k, 0) + n
+
     with open(path, errors="replace") as fh:
         for line in fh:
             if not line.startswith("["):
@@ -31,50 +50,72 @@ def judge(path):
                 case = out["cases"].get(ev[1])
                 for ci, n in enumerate(ev[2:]):
                     if n > 0 and case:
-                        out["distinct"].add((case[0], case[1], case[2], CLASSES[ci]))
-                        c["class." + CLASSES[ci]] = c.get("class." + CLASSES[ci], 0) + n
+                        out["distinct"].add((case[0], case[1], CLASSES[ci]))
+                        cnt("class." + CLASSES[ci], n)
             elif ev[0] == "STATS":
-                out["n"] += ev[1]
+                out["n"] += ev[1] * 2          # every token is verified under both providers
+                cnt("verdict_pairs", ev[1])     # pairs not logged individually are reject/reject on an invalid token
                 out["acc"] += ev[2]
             elif ev[0] == "SKIP":
-                c["skipped_cases"] = c.get("skipped_cases", 0) + 1
+                cnt("skipped_cases")
+            elif ev[0] == "D":
+                idx, alg, ok0, ok1, same = ev[1:6]
+                case = out["cases"].get(idx, ["?", "?", 0, 0])
+                if prop == "C12" and ok0 and ok1:
+                    det = case[1].startswith(("HS", "RS")) or case[1] == "EdDSA"
+                    cnt("token_pairs_compared")
+                    if det:
+                        cnt("deterministic_pairs")
+                        if not same:
+                            out["viol"].append(("tokens-differ:%s" % case[1], "OpenSSL and GnuTLS produced different tokens for a deterministic algorithm",
+                                                dict(idx=idx, key=case[0], alg=case[1])))
             elif ev[0] == "M":
-                idx, cls, variant, refvalid, rc, ef = ev[1:7]
-                case = out["cases"].get(idx, ["?", "?", "?", "?", "?"])
-                prov = ["openssl", "gnutls"][case[0]] if case[0] in (0, 1) else "?"
-                if rc == 0:
-                    c["accepted.%s.%s" % (prov, case[2])] = c.get("accepted.%s.%s" % (prov, case[2]), 0) + 1
-                    if cls != 0:
-                        c["accepted_mutants_refvalid"] = c.get("accepted_mutants_refvalid", 0) + (1 if refvalid else 0)
-                    if not refvalid:
-                        kind = case[1].split(":")[0]
-                        crv = case[1].split(":")[1] if kind in ("ec", "okp") else ""
-                        key = "accept-invalid:%s:%s%s:%s:%s" % (prov, kind, ("/" + crv) if crv else "", case[2], CLASSES[cls])
-                        if cls == 4:   # bit flips: the byte position matters for recognising a specific known leniency
-                            key += ":byte%d" % (variant // 8)
-                        elif cls == 3:  # character substitution at position `variant`: first signature byte it touches
-                            key += ":byte%d" % ((variant * 6 + 5) // 8)
-                        out["viol"].append((key, "verify returned 0 for a token whose third segment is not a valid signature",
-                                            dict(idx=idx, provider=prov, key=case[1], alg=case[2], base=["harness-signed", "libjwt-signed"][case[3]],
-                                                 pin=["explicit alg", "key alg attribute"][case[4]], mutation=CLASSES[cls], variant=variant,
-                                                 token=ev[7] if len(ev) > 7 else None)))
-                elif refvalid and cls == 0 and prov == "gnutls" and "secp256k1" in case[1]:
-                    c["unjudged_secp256k1_gnutls_base_rejected"] = c.get("unjudged_secp256k1_gnutls_base_rejected", 0) + 1
-                elif refvalid and cls == 0:
-                    # unmutated base token rejected: not C01's business (C05), but it voids the positive control
-                    c["base_rejected"] = c.get("base_rejected", 0) + 1
+                idx, cls, variant, refvalid, rc0, rc1 = ev[1:7]
+                case = out["cases"].get(idx, ["?", "?", 0, 0])
+                tok = ev[7] if len(ev) > 7 else None
+                wit = dict(idx=idx, key=case[0], alg=case[1], base=BASES[case[2]], pin=["explicit alg", "key alg attribute"][case[3]],
+                           mutation=CLASSES[cls], variant=variant, rc_openssl=rc0, rc_gnutls=rc1, ref_valid=refvalid, token=tok)
+                unsupported = "secp256k1" in case[0]          # GnuTLS has no secp256k1 / ES256K
+                for pi, rc in ((0, rc0), (1, rc1)):
+                    prov = PROVS[pi]
+                    if rc == 0:
+                        cnt("accepted.%s.%s" % (prov, case[1]))
+                        if cls != 0 and refvalid:
+                            cnt("accepted_mutants_refvalid")
+                        if not refvalid and prop == "C01":
+                            out["viol"].append((viol_key(prov, case, cls, variant),
+                                                "verify returned 0 for a token whose third segment is not a valid signature", wit))
+                    elif refvalid and cls == 0:
+                        if pi == 1 and unsupported:
+                            cnt("unjudged_secp256k1_gnutls_base_rejected")
+                        else:
+                            cnt("base_rejected")        # unmutated token rejected: voids the positive control (C05's business otherwise)
+                            if prop == "C12":
+                                out["viol"].append(("rejects-valid:%s:%s:%s" % (prov, case[1], BASES[case[2]]),
+                                                    "a provider rejected a token signed as RFC 7518 prescribes (by %s)" % BASES[case[2]], wit))
+                if prop == "C12" and not unsupported:
+                    if rc0 != rc1:
+                        if refvalid and cls != 0:
+                            cnt("unjudged_disagreement_on_lenient_valid." + CLASSES[cls])   # valid but not RFC-canonical: excluded middle
+                        else:
+                            acc = PROVS[0] if rc0 == 0 else PROVS[1]
+                            k = viol_key(acc, case, cls, variant).replace("accept-invalid:", "disagree:only-%s-accepts:" % acc, 1) if not refvalid else \
+                                "disagree:valid-token:%s:%s" % (case[1], BASES[case[2]])
+                            out["viol"].append((k, "OpenSSL and GnuTLS give different verdicts on the same token", wit))
+                    else:
+                        cnt("agreements_judged")
                 if len(out["samples"]) < 2 and cls not in (0,):
-                    out["samples"].append(dict(provider=prov, key=case[1], alg=case[2], mutation=CLASSES[cls], variant=variant,
-                                               ref_valid=refvalid, verify_rc=rc))
+                    out["samples"].append(dict(key=case[0], alg=case[1], mutation=CLASSES[cls], variant=variant, ref_valid=refvalid,
+                                               rc_openssl=rc0, rc_gnutls=rc1))
     del out["cases"]
     return out
 
 
 def run(tier, seed, replay):
     rep = vf.Report("C01", tier, seed)
-    rep.rule = ("for every provider x key x admissible alg x base token (harness-signed, libjwt-signed) x pin route, every mutation "
+    rep.rule = ("for every key x admissible alg x base token (harness-signed, signed by libjwt under OpenSSL, under GnuTLS) x pin route, every mutation "
                 "class is applied (all positions for short fields, sampled for RSA signatures; every single bit of EdDSA/ECDSA/HMAC "
-                "signatures); distinct = distinct (provider, key, alg, mutation class) tuples that were executed; a case is "
+                "signatures) and every mutant is verified under both providers; distinct = distinct (key, alg, mutation class) tuples executed; a case is "
                 "non-trivial because every mutant still reaches jwt_checker_verify with a configured key")
     rep.assumptions = ["reference validity = OpenSSL EVP_DigestVerify / HMAC called directly on the harness' own key object; lenient "
                        "base64 decoding and PSS salt auto-detection make the check one-directional (accepted => valid)",
@@ -86,7 +127,7 @@ def run(tier, seed, replay):
         args += ["--only", replay["witness"]["idx"]]
     outs, crashes = vf.run_shards(b, args, vf.NCPU, rd, timeout=3000)
     rep.crash_violations(crashes)
-    for r in vf.pmap(judge, [(p,) for p in outs]):
+    for r in vf.pmap(judge, [(p, "C01") for p in outs]):
         rep.evaluations += r["n"]
         rep.distinct |= r["distinct"]
         rep.count("accepted_total", r["acc"])
